@@ -57,10 +57,14 @@ PropagateOld(n) ==
     ELSE IF n.del # "N" /\ n.anew # "N" /\ n.safe # "N" THEN n
     ELSE [n EXCEPT !.ch = [i \in 1..Len(n.ch) |->
             LET c  == n.ch[i][2]
-                f1 == n.del = "N"  /\ c.idel # n.idel
+                \* what children inherit for `delete` is what they are given when attached (_get_child_kwargs): the container
+                \* type's deleting default counts (mutation PropagateIgnoresDefaultDelete: the code before that fix, which let
+                \* an unrelated tag on an ancestor turn the items of a plain list into merge-mode items)
+                pd == IF TypeDefaultDelete(n) /\ ~Mut("PropagateIgnoresDefaultDelete") THEN "T" ELSE n.idel
+                f1 == n.del = "N"  /\ c.idel # pd
                 f2 == n.anew = "N" /\ c.ianew # n.ianew
                 f3 == n.safe = "N" /\ c.isafe # n.isafe /\ c.isafe # "F"
-                c1 == [c EXCEPT !.idel  = IF f1 THEN n.idel ELSE @,
+                c1 == [c EXCEPT !.idel  = IF f1 THEN pd ELSE @,
                                 !.ianew = IF f2 THEN n.ianew ELSE @,
                                 !.isafe = IF f3 THEN n.isafe ELSE @]
             IN <<n.ch[i][1], IF f1 \/ f2 \/ f3 THEN Propagate(c1) ELSE c>>]]
